@@ -114,6 +114,19 @@ fn mixes() -> Vec<Mix> {
         Mix { partial: false, name: "SI Cubic + SI Quadratic same oversampling".to_string(), cfgs: vec![si.clone(), { let mut c = si.clone(); c.interp = Interp::Quadratic; c }] },
         Mix { partial: false, name: "SO Quadratic + SI Linear + SO Cubic same oversampling".to_string(), cfgs: vec![{ let mut c = so.clone(); c.interp = Interp::Quadratic; c }, { let mut c = si.clone(); c.interp = Interp::Linear; c }, so.clone()] },
         Mix { partial: false, name: "FI Cubic + FI Septic".to_string(), cfgs: vec![fi.clone(), { let mut c = fi.clone(); c.degree = Degree::Septic; c }] },
+        // large tables whose lengths divide each other (a shared table or window served by striding)
+        Mix { partial: false, name: "SI 192x256 + SI 64x256 taps x oversampling".to_string(), cfgs: vec![
+            Cfg::sinc(Kind::SI, 1.2, 1.0, 64, 192, 256, Interp::Linear, Kernel::Dispatch),
+            Cfg::sinc(Kind::SI, 1.2, 1.0, 64, 64, 256, Interp::Linear, Kernel::Dispatch),
+        ] },
+        Mix { partial: false, name: "SO 320x256 Hann + SI 64x256 Hann2".to_string(), cfgs: vec![
+            { let mut c = Cfg::sinc(Kind::SO, 0.8, 1.0, 64, 320, 256, Interp::Cubic, Kernel::Dispatch); c.window = rubato::WindowFunction::Hann; c },
+            { let mut c = Cfg::sinc(Kind::SI, 0.8, 1.0, 64, 64, 256, Interp::Cubic, Kernel::Dispatch); c.window = rubato::WindowFunction::Hann2; c },
+        ] },
+        Mix { partial: false, name: "XX 49152-point block + SI 64x256 (BlackmanHarris2 windows)".to_string(), cfgs: vec![
+            Cfg::fft(Kind::XX, 3, 2, 49152, 1),
+            Cfg::sinc(Kind::SI, 1.2, 1.0, 64, 64, 256, Interp::Nearest, Kernel::Dispatch),
+        ] },
         // parameters that differ only slightly (a cache keyed on rounded floats would collide)
         Mix { partial: false, name: "SI+SI cutoffs 3e-5 apart".to_string(), cfgs: vec![si.clone(), { let mut c = si.clone(); c.f_cutoff += 3.0e-5; c }] },
         Mix { partial: false, name: "SI+SO downsampling, ratios 5e-5 apart".to_string(), cfgs: vec![{ let mut c = si.clone(); c.ratio = 0.91875; c }, { let mut c = so.clone(); c.ratio = 0.9187; c }] },
